@@ -1,5 +1,6 @@
 import Cvise.Proofs.DriverStats
 import Cvise.Proofs.DriverWorked
+import Cvise.Proofs.DriverExecuted
 /-!
 # C20 — the pass statistics report what happened
 
@@ -37,6 +38,15 @@ theorem worked_eq_accepted (cfg : Cfg) (W : World C) (dn : Sched) (orderOf : Lis
     acceptedOf p (LRes.st' (reduce cfg W dn orderOf fuel first main last x)).side.log :=
   reduce_worked_eq cfg W dn orderOf fuel first main last x h p
 
+/-- "total executed" equals the number of candidates that were started, per pass, at the end of every reduction (any
+    outcome, any schedule, any faults; rounds that end by cancellation included) -/
+theorem executed_eq_started (cfg : Cfg) (W : World C) (dn : Sched) (orderOf : List C → List Nat) (fuel : Nat)
+    (first main last : List (PassI C σ)) (x : St C) (h : EInv x) (p : Nat) :
+    (LRes.st' (reduce cfg W dn orderOf fuel first main last x)).side.executed p =
+    startedOf p (LRes.st' (reduce cfg W dn orderOf fuel first main last x)).side.log :=
+  reduce_executed_eq cfg W dn orderOf fuel first main last x h p
+
+example : EInv ({ disk := [0] } : St Nat) := fun _ => rfl
 example : StatOK ({ disk := [0] } : St Nat) := fun _ => Nat.le_refl _
 example : WInv ({ disk := [0] } : St Nat) := fun _ => rfl
 
